@@ -184,13 +184,11 @@ theorem createBuiltins_poolKeys (s : State) (hk : (s.pools.map (·.1)).Nodup) :
     ((createBuiltins s).pools.map (·.1)).Nodup := by
   unfold createBuiltins
   simp only
-  have h1 := (poolsTotal_setIf s.pools (s.pools.get poolMelSym).isNone poolMelSym builtinDefault .mel hk
-    (fun h => Option.isNone_iff_eq_none.mp h)).1
-  generalize (if (s.pools.get poolMelSym).isNone = true then s.pools.set poolMelSym builtinDefault
+  have h1 := (poolsTotal_setIf s.pools (builtinMissing s.pools poolMelSym) poolMelSym builtinDefault .mel hk).1
+  generalize (if builtinMissing s.pools poolMelSym = true then s.pools.set poolMelSym builtinDefault
       else s.pools) = p1 at h1 ⊢
-  have h2 := (poolsTotal_setIf p1 (p1.get poolMelErg).isNone poolMelErg builtinDefault .mel h1
-    (fun h => Option.isNone_iff_eq_none.mp h)).1
-  generalize (if (p1.get poolMelErg).isNone = true then p1.set poolMelErg builtinDefault else p1) = p2 at h2 ⊢
+  have h2 := (poolsTotal_setIf p1 (builtinMissing p1 poolMelErg) poolMelErg builtinDefault .mel h1).1
+  generalize (if builtinMissing p1 poolMelErg = true then p1.set poolMelErg builtinDefault else p1) = p2 at h2 ⊢
   split
   · exact pools_nodup_set h2 _ _
   · exact h2
@@ -199,18 +197,19 @@ theorem createBuiltins_poolKeys (s : State) (hk : (s.pools.map (·.1)).Nodup) :
 theorem createBuiltins_sealPre (s : State) (hp : SealPre s) : SealPre (createBuiltins s) :=
   ⟨hp.coinKeys, createBuiltins_poolKeys s hp.poolKeys, hp.txHashes, hp.faithful, hp.bounded⟩
 
-/-- when the three builtin pools exist, `createBuiltins` does nothing -/
+/-- when the three builtin pools exist and record liquidity, `createBuiltins` does nothing -/
 theorem createBuiltins_noop (s : State)
-    (hb : ∀ k ∈ [poolMelSym, poolMelErg, poolErgSym], (s.pools.get k).isSome) : createBuiltins s = s := by
-  have h1 : (s.pools.get poolMelSym).isNone = false := by
-    have := hb poolMelSym (by simp)
-    cases hg : s.pools.get poolMelSym <;> simp [hg] at this ⊢
-  have h2 : (s.pools.get poolMelErg).isNone = false := by
-    have := hb poolMelErg (by simp)
-    cases hg : s.pools.get poolMelErg <;> simp [hg] at this ⊢
-  have h3 : (s.pools.get poolErgSym).isNone = false := by
-    have := hb poolErgSym (by simp)
-    cases hg : s.pools.get poolErgSym <;> simp [hg] at this ⊢
+    (hb : ∀ k ∈ [poolMelSym, poolMelErg, poolErgSym], ∃ p, s.pools.get k = some p ∧ p.liqs ≠ 0) :
+    createBuiltins s = s := by
+  have hm : ∀ k ∈ [poolMelSym, poolMelErg, poolErgSym], builtinMissing s.pools k = false := by
+    intro k hk
+    obtain ⟨p, hp, hl⟩ := hb k hk
+    unfold builtinMissing
+    rw [hp]
+    simpa using hl
+  have h1 := hm poolMelSym (by simp)
+  have h2 := hm poolMelErg (by simp)
+  have h3 := hm poolErgSym (by simp)
   unfold createBuiltins
   simp [h1, h2, h3]
 
